@@ -281,7 +281,7 @@ func init() {
 	core.Register(&core.Prop{
 		ID:        "C03",
 		Technique: "schema-evolution monitor: data of generated struct types decoded by the real Unmarshal into randomly edited types with non-zero priors, compared with a reference decoder and metamorphically with the decode into the original type",
-		Rule: "S from the type generator; every second prior is a recycled target (slices cut short where they are), schema queries come between decodes; S' by a random edit script at every nesting depth (field, pointer target, slice element, map value): remove (p=1/4), add under a fresh index with an arbitrary type, rename (Go name and/or json tag), reorder; " +
+		Rule: "every fourth message is also decoded with up to six fields appended whose indexes are those of S' plus a multiple of 2^29..2^56 (five- to nine-byte tags): unknown, to be skipped. S from the type generator; every second prior is a recycled target (slices cut short where they are), schema queries come between decodes; S' by a random edit script at every nesting depth (field, pointer target, slice element, map value): remove (p=1/4), add under a fresh index with an arbitrary type, rename (Go name and/or json tag), reorder; " +
 			"values of S boundary-biased, priors of S' zero in one third of the cases and random otherwise. Counters report which wire types occurred as unknown fields. distinct = (S, S', configuration, value-shape) hashes",
 		Assume: []string{"model.Decode implements the merge rules of the statement (validated against the real decoder by C10)"},
 		Plan: func(tier string) []core.Lane {
